@@ -218,8 +218,13 @@ fn tlc2pool(args: &Args) {
     let mut w = out_file(args.req("out"));
     let origin = args.get("origin").unwrap_or("tlc");
     let mut n = 0;
+    let dedupe = args.get("dedupe").is_some();
+    let mut seen = std::collections::HashSet::new();
     for v in read_replays(args.req("in")) {
         let t = text_of(&v["text"]);
+        if dedupe && !seen.insert(t.clone()) {
+            continue;
+        }
         writeln!(w, "{}", json!({"o": origin, "t": t})).unwrap();
         n += 1;
     }
